@@ -35,7 +35,7 @@ type ExecOpts struct {
 type Stats struct {
 	Blocks, Txs, TxOK, TxRejected, TxAnte int
 	PreOps, PreOK                         int
-	SimTimeNs                             int64
+	SimDays                               float64
 	Faults                                map[string]int // fired
 	FaultsCfg                             map[string]int // configured
 	Probes                                map[string]int
@@ -423,7 +423,7 @@ func Execute(s *Schedule, opt ExecOpts) (res *RunResult) {
 		}
 		bo, cont := e.runBlock(bi, blk, prev)
 		res.Stats.Blocks++
-		res.Stats.SimTimeNs = blk.TimeNs - first
+		res.Stats.SimDays = float64(blk.TimeNs-first) / 86400e9
 		if bo != nil && bo.Cur != nil {
 			prev = bo.Cur
 		}
@@ -527,7 +527,7 @@ func (e *execState) runBlock(bi int, blk *Block, prev *Snap) (*blockObs, bool) {
 		return node.Finalize(blk.TimeNs, txBytes, oeMode), perr
 	}
 	if e.opt.BankFailEnum && res.Stats.Probes["enum_blocks"] < maxInt(e.opt.MaxEnumBlocks, 1) {
-		e.enumBankFail(bi, blk, txBytes)
+		e.enumBankFail(bi, blk, txBytes, prev)
 	}
 	br, preErrs := exec(n, oe)
 	if oe != "" {
